@@ -536,7 +536,10 @@ pub fn deviations(w: &World, cfg: &E2Cfg, base_appends: u8) -> Vec<Event> {
         }
         Some(_) => d.push(Event::Heal),
     }
-    if w.appends - base_appends < cfg.max_appends {
+    // the budget is absolute (appends of the base prefix included): the walks of all bases share one
+    // visited set, so what may follow a state must not depend on the base it was reached from
+    let _ = base_appends;
+    if w.appends < cfg.max_appends {
         for i in w.leaders() {
             d.push(Event::Append(i as u8));
         }
